@@ -34,7 +34,7 @@ func (c15) Assumptions() []string {
 	return []string{"self-differential: a fresh ValueReader running the same code is the reference", "documents and pool schedules are sampled"}
 }
 func (c15) Required(tier string) []string {
-	return []string{"P-miss", "P-pick", "P-evict", "X-mutate-result", "A-abort", "pool-hit-serves-a-previously-used-reader", "read-after-failed-read", "read-after-depth-limit-exit", "read-after-10x-larger-document", "snapshots-rechecked", "input-in-reused-arena", "top-level-string", "next-message-same-address-same-length-other-content", "thousands-of-never-seen-field-names", "partial-message-then-retry-at-the-same-address", "G-gc"}
+	return []string{"P-miss", "P-pick", "P-evict", "X-mutate-result", "A-abort", "pool-hit-serves-a-previously-used-reader", "read-after-failed-read", "read-after-depth-limit-exit", "read-after-10x-larger-document", "snapshots-rechecked", "input-in-reused-arena", "top-level-string", "next-message-same-address-same-length-other-content", "thousands-of-never-seen-field-names", "partial-message-then-retry-at-the-same-address", "G-gc", "kept-error-values-rechecked"}
 }
 
 var vrOps = []string{"VR.ReadValue", "VR.ReadObject", "VR.ReadArray"}
@@ -137,6 +137,21 @@ func genVRDoc(r *Rand, entry string) Doc {
 func (c15) Gen(r *Rand, sc *Scenario, tier string) { genVRHistory(r, sc, true) }
 
 func genVRHistory(r *Rand, sc *Scenario, withMutations bool) {
+	if sc.Index%8000 == 77 {
+		// a long-lived reader that has seen tens of millions of values: nine reads of a 2^21-element
+		// array (plus a few small documents) through one entry point - whatever a reader counts or
+		// accumulates per value over its lifetime gets large
+		entry := vrOps[[]int{0, 0, 2}[r.Intn(3)]]
+		sc.Docs = append(sc.Docs, docRep("two-million-elements", "[", 1, "1,", 1<<21, "1]", 1), docOf([]byte(`[1,{"a":[2]}]`), "small"))
+		var ops []Op
+		for i := 0; i < 9; i++ {
+			ops = append(ops, Op{Kind: entry, Doc: 0})
+		}
+		ops = append(ops, Op{Kind: entry, Doc: 1}, Op{Kind: "VR.ReadValue", Doc: 1})
+		sc.Tasks = [][]Op{ops}
+		sc.Cfg["tens-of-millions-of-values"] = 1
+		return
+	}
 	if r.Chance(1, 40) {
 		// 2-4 documents with thousands of field names each, none of them seen before: state that a
 		// reader accumulates per distinct key (interning tables, key arenas) overflows and wraps
@@ -315,7 +330,16 @@ func (c15) Exec(sc *Scenario, st *Stats) *Violation {
 	pool.install()
 	defer uninstallPool()
 	reader := &rjson.ValueReader{}
+	if sc.cfg("tens-of-millions-of-values") == 1 {
+		st.probe("reader-that-has-read-tens-of-millions-of-values")
+	}
 	var results []*vrResult
+	type keptErr struct {
+		err  error
+		text string
+		op   int
+	}
+	var keptErrs []keptErr // error values the caller kept from failed reads: returned values too
 	lastFailed, lastDepth, reads := false, false, 0
 	lastLen := 0
 	maxLen := 0
@@ -397,11 +421,20 @@ func (c15) Exec(sc *Scenario, st *Stats) *Violation {
 			if outA.OK && outA.Panic == "" {
 				results = append(results, &vrResult{live: outA.Val, snap: deepSnap(outA.Val), op: oi})
 			}
+			if outA.Err != nil && len(keptErrs) < 8 {
+				keptErrs = append(keptErrs, keptErr{outA.Err, errText(outA.Err), oi})
+			}
 			lastFailed = !outA.OK
 			lastDepth = d.Class == "toodeep"
 			lastLen = len(dataA)
 			// the caller is done with the input: overwrite it
 			poison(dataA, 0x58)
+		}
+		for _, k := range keptErrs {
+			st.probe("kept-error-values-rechecked")
+			if now := errText(k.err); now != k.text {
+				return viol("returned-value-changed", fmt.Sprintf("the error returned by call %d read %q when it was returned and reads %q after step %d (%s)", k.op, k.text, now, oi, op.Kind))
+			}
 		}
 		for _, r := range results {
 			st.probe("snapshots-rechecked")
@@ -456,6 +489,7 @@ func runAPIRaw(name string, x *opCtx, data []byte) (out Outcome) {
 		panic(harnessError("runAPIRaw: " + name))
 	}
 	out.OK = err == nil
+	out.Err = err
 	return out
 }
 
